@@ -420,3 +420,98 @@ func earlyLoopExit(header *ssa.BasicBlock) ssa.Instruction {
 	}
 	return nil
 }
+
+
+// didParallelWalk: key is built from ids[i] and value is (the address of) entries[i], where (ids, entries) are results #0 and #1 of
+// one call of a lister of the DID store that builds both lists in one loop: per iteration it appends the iterator's key to the
+// first and the value decoded from the same iterator's value to the second (that every iteration appends is the lister rule of
+// didGenesisRules; that nothing touches the lists afterwards is checkParallelResultsUntouched).
+func didParallelWalk(p *Prog, m *didModel, key, val *Term) (*ssa.Function, bool) {
+	if key == nil || val == nil {
+		return nil, false
+	}
+	elem := val
+	for (elem.Op == "deref" || elem.Op == "addr") && len(elem.Args) == 1 {
+		elem = elem.Args[0]
+	}
+	if (elem.Op != "index" && elem.Op != "indexaddr") || len(elem.Args) != 2 {
+		return nil, false
+	}
+	rv := elem.Args[0]
+	if rv.Op != "res" || rv.Name != "#1" || len(rv.Args) != 1 || rv.Args[0].Op != "call" {
+		return nil, false
+	}
+	call, idx := rv.Args[0], elem.Args[1]
+	c, isCall := call.Val.(*ssa.Call)
+	if !isCall || c.Call.StaticCallee() == nil {
+		return nil, false
+	}
+	L := resolveBound(c.Call.StaticCallee())
+	if !m.iters[L] || L.Signature.Results().Len() != 2 {
+		return nil, false
+	}
+	keyOK := key.Contains(func(x *Term) bool {
+		return (x.Op == "index" || x.Op == "indexaddr") && len(x.Args) == 2 && x.Args[1].Eq(idx) &&
+			x.Args[0].Op == "res" && x.Args[0].Name == "#0" && len(x.Args[0].Args) == 1 && x.Args[0].Args[0].Eq(call)
+	})
+	if !keyOK {
+		return nil, false
+	}
+	// the lister's loop: append(R0, string(iter.Key())) and append(R1, decoded(iter.Value())) on the same iterator
+	o := NewOrigin(p, L)
+	rets := returnsOf(L)
+	if len(rets) != 1 {
+		return nil, false
+	}
+	r0, r1 := o.Of(rets[0].Results[0]), o.Of(rets[0].Results[1])
+	var iterOfKey, iterOfVal *Term
+	nAppend := 0
+	for _, cs := range callSites(L) {
+		if cs.Name != "builtin:append" || !inCycle(cs.Instr.Block()) {
+			continue
+		}
+		nAppend++
+		t := o.Of(cs.Instr.(*ssa.Call))
+		if len(t.Args) != 2 || t.Args[1].Op != "slicelit" || len(t.Args[1].Args) != 1 {
+			return nil, false
+		}
+		el := t.Args[1].Args[0]
+		switch {
+		case t.Args[0].Eq(r0):
+			for el.Op == "conv" && len(el.Args) == 1 {
+				el = el.Args[0]
+			}
+			if el.IsCall("Iterator.Key") && len(el.Args) == 1 {
+				iterOfKey = el.Args[0]
+			}
+		case t.Args[0].Eq(r1):
+			if el.Op != "outparam" {
+				return nil, false
+			}
+			// the decode call whose out-parameter this is reads the iterator's value
+			for _, dc := range callSites(L) {
+				if dc.Instr.Value() == nil {
+					continue
+				}
+				dt := o.Of(dc.Instr.Value())
+				if dt == nil || dt.Op != "call" || dt.Name != el.Name || dt.Site != el.Site || el.Site == "" {
+					continue
+				}
+				if !strings.Contains(dt.Name, "Unmarshal") {
+					continue
+				}
+				for _, a := range dt.Args {
+					if a.IsCall("Iterator.Value") && len(a.Args) == 1 {
+						iterOfVal = a.Args[0]
+					}
+				}
+			}
+		default:
+			return nil, false
+		}
+	}
+	if nAppend != 2 || iterOfKey == nil || iterOfVal == nil || !iterOfKey.Eq(iterOfVal) {
+		return nil, false
+	}
+	return L, true
+}
